@@ -72,6 +72,9 @@ type Check struct {
 	Rule        string
 	Assumptions []string
 	Parts       func(tier string) []Part
+	// RacePass (optional): run the concurrent harness bodies n times each free-running (binary built
+	// with -race); returns bodies completed and panics. A side condition, never a verdict.
+	RacePass func(n int, scratch string) (completed int, panics []string)
 	// Budget per tier (wall clock for the whole check); parts get a shared deadline.
 	QuickBudget, ThoroughBudget time.Duration
 }
@@ -136,7 +139,24 @@ func Main(ck Check) {
 	deadline := flag.Int64("deadline", 0, "internal: unix deadline")
 	replay := flag.String("replay", "", "replay file")
 	only := flag.String("only", "", "run only parts whose name has this prefix (debugging; evidence not written)")
+	racepass := flag.Int("racepass", 0, "run the race pass: every concurrent harness body N times free-running")
 	flag.Parse()
+	if *racepass > 0 {
+		if ck.RacePass == nil {
+			fmt.Println("no race pass for this check")
+			os.Exit(0)
+		}
+		scratch := mkScratch()
+		done, panics := ck.RacePass(*racepass, scratch)
+		os.RemoveAll(scratch)
+		fmt.Printf("RACEPASS property=%s bodies_completed=%d panics=%d\n", ck.ID, done, len(panics))
+		for i, p := range panics {
+			if i < 5 {
+				fmt.Println("  panic:", p)
+			}
+		}
+		os.Exit(0)
+	}
 	if *tier == "" {
 		*tier = os.Getenv("VERIF_TIER")
 	}
